@@ -1,0 +1,96 @@
+//go:build verif
+
+package imagehash
+
+import "sync"
+
+// Verification hooks (build tag "verif" only): registry and residue control for the four pixel
+// pools, so that what an earlier hash call left in a pooled buffer is a deterministic input.
+
+var (
+	verifMu   sync.Mutex
+	verifF64  []*[]float64
+	verifF32  []*[]float32
+	verifFill func(f64 []float64, f32 []float32)
+)
+
+func verifWrap64(p *sync.Pool) {
+	newFn := p.New
+	p.New = func() interface{} {
+		b := newFn().(*[]float64)
+		verifMu.Lock()
+		verifF64 = append(verifF64, b)
+		if verifFill != nil {
+			verifFill(*b, nil)
+		}
+		verifMu.Unlock()
+		return b
+	}
+}
+
+func verifWrap32(p *sync.Pool) {
+	newFn := p.New
+	p.New = func() interface{} {
+		b := newFn().(*[]float32)
+		verifMu.Lock()
+		verifF32 = append(verifF32, b)
+		if verifFill != nil {
+			verifFill(nil, *b)
+		}
+		verifMu.Unlock()
+		return b
+	}
+}
+
+func init() {
+	verifWrap64(&pixelsPool64)
+	verifWrap64(&pixelsPool256)
+	verifWrap32(&pixelsPool32)
+	verifWrap32(&pixelsPool256Alt)
+}
+
+// VerifSetResidue fills every pooled pixel buffer created so far, and every one created from
+// now on, by calling fill (exactly one of its arguments is non-nil). nil stops filling.
+func VerifSetResidue(fill func(f64 []float64, f32 []float32)) {
+	verifMu.Lock()
+	defer verifMu.Unlock()
+	verifFill = fill
+	if fill == nil {
+		return
+	}
+	for _, b := range verifF64 {
+		fill(*b, nil)
+	}
+	for _, b := range verifF32 {
+		fill(nil, *b)
+	}
+}
+
+// VerifPristine zeroes every pooled pixel buffer (process-start state).
+func VerifPristine() {
+	VerifSetResidue(func(f64 []float64, f32 []float32) {
+		for i := range f64 {
+			f64[i] = 0
+		}
+		for i := range f32 {
+			f32[i] = 0
+		}
+	})
+	verifMu.Lock()
+	verifFill = nil
+	verifMu.Unlock()
+}
+
+// VerifForget drops the registry (call after the pools were emptied by GC).
+func VerifForget() {
+	verifMu.Lock()
+	verifF64, verifF32 = nil, nil
+	verifMu.Unlock()
+}
+
+// VerifPoolObjects returns how many pixel buffers the pools have created.
+func VerifPoolObjects() int {
+	verifMu.Lock()
+	defer verifMu.Unlock()
+	return len(verifF64) + len(verifF32)
+}
